@@ -16,6 +16,19 @@ type TypeInfo struct {
 	PkgPath string
 }
 
+// Deref resolves type aliases and removes one level of pointer indirection, so that
+// "type A = pkg.T", "type P = *pkg.T", "*A" and "pkg.T" all lead to the same defined type.
+func Deref(t types.Type) types.Type {
+	if t == nil {
+		return nil
+	}
+	t = types.Unalias(t)
+	if ptr, ok := t.(*types.Pointer); ok {
+		t = types.Unalias(ptr.Elem())
+	}
+	return t
+}
+
 // IsPackageLevelType reports whether the named type is declared at package level.
 // Annotations are only read from package-level declarations, so a function-local type
 // that merely shares its name with an annotated type must not be looked up by name.
@@ -36,10 +49,8 @@ func ExtractTypeInfo(t types.Type) *TypeInfo {
 		return nil
 	}
 
-	// Remove pointer if present
-	if ptr, ok := t.(*types.Pointer); ok {
-		t = ptr.Elem()
-	}
+	// Resolve aliases and remove pointer if present
+	t = Deref(t)
 
 	// Get named type
 	named, ok := t.(*types.Named)
@@ -66,10 +77,8 @@ func ExtractTypeName(t types.Type) string {
 		return ""
 	}
 
-	// Remove pointer if present
-	if ptr, ok := t.(*types.Pointer); ok {
-		t = ptr.Elem()
-	}
+	// Resolve aliases and remove pointer if present
+	t = Deref(t)
 
 	// Get named type
 	named, ok := t.(*types.Named)
